@@ -97,6 +97,19 @@ def rule_D(ctx):
         ctx.check(vr(d0).endswith(exp0) and vr(d1).endswith(exp1), 'C10.D', f,
                   'the distances to the two end nodes are computed from the same geometry, point and segment index (ends 0 then 1)',
                   witness={'third': vr(d0), 'fourth': vr(d1)}, node=e.node, key='enddist')
+    # the table indexed by the observation number is emptied for every track: __states(track, k) returns TABLE[k]
+    tabs = {(e.recv.single_atom() or '')[:-len('[-1]')] for e in cands}
+    if len(tabs) != 1:
+        raise shape_error('__mapOnNetwork: candidate table not identified (%s)' % sorted(tabs), f.loc(lo))
+    tab = tabs.pop()
+    w3 = Walker(f, loop_mode='skip')
+    pre3 = w3.state_before(body, lo)
+    t0 = pre3.env.get(tab) if pre3 is not None else None
+    ctx.check(isinstance(t0, list) and len(t0) == 0, 'C10.D', f,
+              'the candidate table is emptied at the start of every track: entry k is the candidate list of observation k of THIS track',
+              witness={'table': tab, 'value before the observation loop': vr(t0) if t0 is not None else 'whatever the previous track left in it',
+                       'why': 'with several tracks in one call, observation k of a later track is decoded with the candidates of observation k of the first track'},
+              node=lo, key='table-reset')
     # sentinel for empty lists
     ok = False
     for e in sents:
@@ -252,7 +265,10 @@ class _Proxy:
 def rule_P(ctx):
     """C10.P the distance compared with the radius is the distance to the point returned (proj_segment, every return)"""
     from . import c20
+    from ..report import Proxy
     c20.rule_D(_Proxy(ctx))
+    # ... and the distance returned for a polyline is the one of the projection whose point is returned
+    c20.rule_P(Proxy(ctx, {'C20.P': 'C10.P'}))
 
 
 RULES = [
